@@ -89,6 +89,12 @@ def nsarg(ctx, rn, fam):
     for x, bb, t in sites:
         w = which_child(x, t)
         seen[w] = seen.get(w, 0) + 1
+        if len(t['args']) < 3:
+            # the enclosing namespace is no longer an argument of the recursion (kept in mutable parser state, say): set /
+            # restore discipline around each child is a different protocol, which was not reviewed
+            ctx.ob('NSARG', '%s#%d' % (w, seen[w]), False, short_loc(t.get('span')),
+                   '%s child registered without a namespace argument: the enclosing namespace is not threaded through the recursion as a parameter (reviewed protocol: record fields get the record\'s own namespace, other children the unchanged parameter)' % w)
+            continue
         o = origin(x, t['args'][2])
         if w == 'field':
             ok = 'namespace' in o.fields and not (o.params() & {3}) and ('upvar' in o.flags or o.params() <= {1, 2}) and \
@@ -122,6 +128,13 @@ def resolution_rules(ctx):
     nsarg(ctx, rn, fam)
     namekey(ctx, rn, fam)
     state_rule(ctx, rn)
+    # ... and the late-bound keys of forward references are rewritten to the definition their own name key designates
+    fs = None
+    for b in f.body_list:
+        if b.j['kind'] != 'closure' and b.name == 'from_str' and fn_label(b).startswith(('<schema::safe::SchemaMut', PM)) and 'parsing' in (b.span or {}).get('loc', ''):
+            fs = b
+    if fs is not None:
+        fixup(ctx, fs)
 
 
 def object_form_rule(ctx):
